@@ -4,6 +4,7 @@ package keeper
 
 import (
 	"context"
+	"time"
 
 	sdk "github.com/cosmos/cosmos-sdk/types"
 
@@ -98,6 +99,25 @@ func VerifHarness_Step_BasketPut() {
 					cf := zz.OrmLookup0(zzinv.TClass, "Id", &cl, classID)
 					zz.Assert(zz.And(bf, zz.OrmExists0(zzinv.TBasketClass, b.Id, classID)), "C11 Put succeeds only for credits whose class is on the basket's allowed list")
 					zz.Assert(zz.And(cf, zz.StrEq(cl.CreditTypeAbbrev, b.CreditTypeAbbrev)), "C11 Put succeeds only for credits of the basket's credit type")
+					// C11 (only-if direction): every credit's batch satisfies the date criteria
+					if b.DateCriteria != nil && bt.StartDate != nil {
+						start := bt.StartDate.AsTime()
+						now := sdk.UnwrapSDKContext(zz.Context()).BlockTime()
+						switch {
+						case b.DateCriteria.MinStartDate != nil:
+							zz.Assert(zz.Not(zz.TimeLt(start, b.DateCriteria.MinStartDate.AsTime())), "C11 Put succeeds only for batches starting at or after the basket's minimum start date")
+						case b.DateCriteria.StartDateWindow != nil:
+							w := b.DateCriteria.StartDateWindow
+							// windows that time.Duration can represent (about 292 years); larger ones
+							// saturate in AsDuration (observation F6) and are outside this obligation
+							if zz.And(w.Seconds >= 0, w.Seconds < 9_000_000_000) {
+								zz.Assert(zz.Not(zz.TimeLt(start, now.Add(-w.AsDuration()))), "C11 Put succeeds only for batches starting within the basket's start date window before block time")
+							}
+						case b.DateCriteria.YearsInThePast != 0:
+							first := time.Date(now.Year()-int(b.DateCriteria.YearsInThePast), 1, 1, 0, 0, 0, 0, time.UTC)
+							zz.Assert(zz.Not(zz.TimeLt(start, first)), "C11 Put succeeds only for batches starting in or after the year block time minus years_in_the_past")
+						}
+					}
 				}
 				minted := zz.QMul(zz.QPow10(zzinv.Precision), total)
 				zz.Label("put.minted.expected", minted)
